@@ -11,7 +11,9 @@ from props_pipe import H, O, C, expect_exact
 
 DEFAULTS = {'delimiter-start': '<!-- <', 'delimiter-end': '> -->', 'time-limited-tag-name': 'time-limited', 'time-limited-time-offset': '+00:00',
             'removal-marker-tag-name': 'removal-marker'}
-TIMES = {'2001-01-01T03:00:00Z': 978318000, '2000-12-31T20:00:00Z': 978292800, '2010-01-01T05:30:00+09:00': 1262291400, '2024-01-01T00:00:00Z': 1704067200, '2005-06-01T09:00:00+09:00': 1117584000, '1999-12-31T23:59:59-08:00': 946713599}
+TIMES = {'2001-01-01T03:00:00Z': 978318000, '2000-12-31T20:00:00Z': 978292800, '2010-01-01T05:30:00+09:00': 1262291400, '2024-01-01T00:00:00Z': 1704067200, '2005-06-01T09:00:00+09:00': 1117584000, '1999-12-31T23:59:59-08:00': 946713599,
+         # a sub-second part: three quarters of a second before the `to` of the third element (2010-01-01 00:00:00 at +00:00)
+         '2009-12-31T23:59:59.750Z': (1262303999, 750000000), '2010-01-01T08:59:59.5+09:00': (1262303999, 500000000)}
 PRINTABLE = tuple(range(0x21, 0x7f))
 
 
@@ -83,10 +85,11 @@ def c20_cli(ctx, p):
         ctx.cover('no-target-option')
     cur = p['opts'].get('time-limited-current', [''])[0]
     now = TIMES.get(cur, now_env)
+    now, now_ns = now if isinstance(now, tuple) else (now, 0)
     if cur not in TIMES and not ctx.symbolic:
         raise PathAbort()  # without an explicit current time the real binary uses the wall clock: nothing to compare natively
     g = lambda k: list(p['opts'].get(k, [DEFAULTS[k]])[0].encode())
-    cfg = default_cfg(tl_tag=g('time-limited-tag-name'), tl_offset=g('time-limited-time-offset'), now=now, rm_tag=g('removal-marker-tag-name'), targets=targets)
+    cfg = default_cfg(tl_tag=g('time-limited-tag-name'), tl_offset=g('time-limited-time-offset'), now=now, now_ns=now_ns, rm_tag=g('removal-marker-tag-name'), targets=targets)
     if 'list' in opts or 'list-all' in opts:
         ctx.cover('list-mode')
         fmt = 'json' if 'list-json' in opts else 'pretty'
